@@ -340,6 +340,8 @@ func (l *Ledger) formatBlock(txList []*pb.Transaction,
 func (l *Ledger) saveBlock(block *pb.InternalBlock, batchWrite kvdb.Batch) error {
 	blockBuf, pbErr := proto.Marshal(block)
 	l.blkHeaderCache.Add(string(block.Blockid), block)
+	// a full copy of this block read earlier carries the old header fields
+	l.blockCache.Del(string(block.Blockid))
 	if pbErr != nil {
 		l.xlog.Warn("marshal block fail", "pbErr", pbErr)
 		return pbErr
@@ -562,6 +564,18 @@ func (l *Ledger) ConfirmBlock(block *pb.InternalBlock, isRoot bool) ConfirmStatu
 	dummyTransactions := []*pb.Transaction{}
 	realTransactions := block.Transactions // 真正的交易转存到局部变量
 	block.Transactions = dummyTransactions // block表不保存transaction详情
+	defer func() {
+		if !confirmStatus.Succ {
+			// a failed confirmation leaves nothing behind: the caller gets its block back,
+			// and the headers that were modified in the cache on the way (pre block, fork
+			// path) are dropped so that they are read from the unchanged storage again
+			block.Transactions = realTransactions
+			for _, key := range l.blkHeaderCache.Keys() {
+				l.blkHeaderCache.Del(key)
+			}
+			l.blockCache.Del(string(block.Blockid))
+		}
+	}()
 
 	batchWrite := l.confirmBatch
 	batchWrite.Reset()
@@ -750,7 +764,9 @@ func (l *Ledger) ConfirmBlock(block *pb.InternalBlock, isRoot bool) ConfirmStatu
 			confirmStatus.Error = lErr
 		}
 	}
-	l.blockCache.Add(string(block.Blockid), block)
+	if confirmStatus.Succ {
+		l.blockCache.Add(string(block.Blockid), block)
+	}
 	l.xlog.Debug("confirm block cost", "blkTimer", blkTimer.Print())
 	return confirmStatus
 }
